@@ -964,7 +964,7 @@ def whereS (t : RowTable) (conds : List Cond) : Except Err (List (List Cell)) :=
   filterRows (fun r => satRow t.columns r conds) t.rows
 
 
-/-! ## Well-formedness of a `where` call (the hypotheses of `where_eq_spec`, as a decidable check)
+/-! ## Well-formedness of a `where` call (the hypotheses of `where_eq_spec_partial`, as a decidable check)
 
 Each conjunct is forced: without it the code of the pinned tree (or any tree) answers differently
 from the plain evaluation; see the `_counterexample` theorems in `Props/C17.lean`. -/
@@ -1093,7 +1093,7 @@ def tableOKB (t : Table) (N : Nat) : Bool :=
   t.data.all (fun p => p.2.length == N) && t.columns.all (fun c => isOk (lookupCol t.data c))
   && strictIncB (t.sel.idx N) && (t.sel.idx N).all (fun j => decide (j < N))
 
-/-- all hypotheses of `where_eq_spec` for the call `t.where(None, pos, **kws)` -/
+/-- all hypotheses of `where_eq_spec_partial` for the call `t.where(None, pos, **kws)` -/
 def whereWF (cfg : Cfg) (t : Table) (pos : Option Op) (kws : List (Nat × Arg)) : Bool :=
   match t.data with
   | [] => false
@@ -1103,7 +1103,7 @@ def whereWF (cfg : Cfg) (t : Table) (pos : Option Op) (kws : List (Nat × Arg)) 
      | .error _ => false
      | .ok lohis => kws.all (kwOKB cfg t lohis (t.m b.length) pos))
 
-/-- hypotheses of `index_spec` as a decidable check: the table owns its lists (not a view) and is
+/-- hypotheses of `index_spec_partial` as a decidable check: the table owns its lists (not a view) and is
 well-formed, at least one name given, the effective index columns are distinct (P14), differ from
 the current `_indexes` (otherwise `index` returns at once: P13), are columns, and their cells are
 mutually comparable and not `None` (otherwise `sorted` raises) -/
